@@ -159,6 +159,7 @@ pub fn run(ctx: &mut Ctx) {
 
     // every non-empty subset of the non-fee outputs of a few base scenarios (all positions
     // of marked outputs relative to fee and unmarked ones)
+    ctx.seen("exhaustive_subspaces", "C04: every non-empty subset of (up to 5) non-fee outputs marked for blinding, per base scenario");
     let n = ctx.budget(60, 1_500);
     ctx.phase("all-subsets", n, |ctx, k| {
         let base_seed: u64 = ctx.rng.gen();
